@@ -1,3 +1,52 @@
-import Orda.Model.Api
+/-
+C15 — Operation and element identifiers are unique and respect causality.
+Property theorems only; helper lemmas live in Orda/Proofs.
+-/
+import Orda.Proofs.HashCmp
 namespace Orda.Props.C15
+open Orda
+
+/-- Identifier keys: the format found in the current source (Gen.hashFormat, regenerated on every
+    run) renders distinct timestamps — any era, clock, client id and batch index — to distinct keys,
+    so the Go index `Map[ts.Hash()]` is a map keyed by the identifier itself. -/
+theorem hash_injective (a b : Ts) (h : hashKey a = hashKey b) : a = b :=
+  hashKey_injective a b h
+
+/-- the decidable separation criterion holds of the generated format (a proof obligation on the code) -/
+theorem hash_format_well_separated : WellSeparated Gen.hashFormat = true :=
+  hashFormat_wellSeparated
+
+/-- the separator-less format this code base used to have is not injective (smallest witness) -/
+theorem old_format_collides :
+    renderHash [.era, .lamport, .delim, .cuid] ⟨0, 1, "c", 10⟩ =
+      renderHash [.era, .lamport, .delim, .cuid] ⟨0, 11, "c", 0⟩ ∧ (1, 10) ≠ (11, 0) :=
+  ⟨concat_format_collides, by decide⟩
+
+/-- Timestamp comparison is a strict total order on (era, clock, client id) -/
+theorem cmp_strict_total (a b c : Ts) :
+    (a.cmp b = .eq ↔ a.key = b.key) ∧
+    (a.cmp b = .gt ↔ b.cmp a = .lt) ∧
+    (a.cmp b = .lt → b.cmp c = .lt → a.cmp c = .lt) ∧
+    a.cmp a ≠ .lt ∧
+    (a.cmp b = .lt ∨ a.cmp b = .eq ∨ a.cmp b = .gt) :=
+  ⟨cmp_eq_iff a b, cmp_gt_iff_lt a b, cmp_lt_trans a b c, cmp_lt_irrefl a, by cases a.cmp b <;> simp⟩
+
+/-- the comparison as written in the source (int32 / int64 differences; shape regenerated from the
+    source) agrees with that order for all clocks below 2^63 and eras below 2^31 -/
+theorem cmp_as_written (a b : Ts) (h : NoWrap a b) : a.cmp64 b = a.cmp b :=
+  cmp64_eq_cmp a b h
+
+/-- … and only there: beyond the guard it is not transitive (out of range for any real history) -/
+theorem cmp_as_written_wraps : ∃ a b c : Ts, a.cmp64 b = .lt ∧ b.cmp64 c = .lt ∧ a.cmp64 c = .gt :=
+  cmp64_not_transitive
+
+/-- a later clock value of the same era orders after every earlier one, whatever the client ids:
+    this is what makes a new local operation newer than everything its replica has applied -/
+theorem later_clock_is_newer (a b : Ts) (he : a.era = b.era) (hl : a.lamport < b.lamport) :
+    a.cmp b = .lt :=
+  cmp_lt_of_lamport_lt a b he hl
+
+-- non-vacuity of the guard
+example : NoWrap ⟨0, 5, "a", 0⟩ ⟨0, 9, "b", 3⟩ := by unfold NoWrap; decide
+
 end Orda.Props.C15
